@@ -4,6 +4,14 @@ import PetgraphModel.Proofs.SerdeTrip
 import PetgraphModel.Proofs.SerdeExec
 import PetgraphModel.Proofs.C17W2Map
 import PetgraphModel.Proofs.C17W2MapC03
+import PetgraphModel.Proofs.C17W3Stable
+import PetgraphModel.Proofs.C17W3Obs
+import PetgraphModel.Proofs.C17W3Graph
+import PetgraphModel.Proofs.C17W3GraphObs
+import PetgraphModel.Proofs.C17W3Map
+import PetgraphModel.Theorems.C01
+import PetgraphModel.Theorems.C02
+import PetgraphModel.Theorems.C03
 /-
 C17 — serde round-trips graphs exactly and never yields a corrupt graph from bad input.
 
@@ -113,7 +121,18 @@ theorem C17_ser_total (s : Stable) (hI : StableInv s) :
 /-- **round trip, `StableGraph`**: for every consistent `StableGraph` (any vacancies, also trailing ones) below the
 capacity of its index type and every field order, `de (ser g) = ok g'` where `g'` is consistent, has the same index
 type and edge type, the same live node and edge indices with the same weights and endpoints, the same vacancies up
-to the same bounds, and the same counts. -/
+to the same bounds, and the same counts.
+
+What is NOT preserved: the ORDER of the two free lists (and the order inside each adjacency list).  `link_edges` rebuilds
+both free lists — like every adjacency list — in descending index order (`C17_de_lists_exact`), whatever order the
+original's removal history had left them in.  The free lists are LIFO stacks, so when the original holds two or more node
+(edge) vacancies, the index handed out by the next `add_node` (`add_edge`) after the round trip — always the LARGEST
+vacant index — may differ from the one the original would have handed out (`C17_roundtrip_free_list_order_witness`), and
+trailing vacancies (slots at or above `node_bound` / `edge_bound`) are dropped.  The identity stated here is therefore an
+identity of the CURRENT observables (`SameObs`: which indices are live, their weights and endpoints, bounds, counts), not
+of the future allocation order; C02's specification leaves that order open (`add_node` may return any vacant index),
+so the loaded graph is again a correct `StableGraph` under every further history
+(`C17_loaded_stable_all_histories`). -/
 theorem C17_roundtrip_stable (s : Stable) (hI : StableInv s) (order : List Field) (ho : FullOrder order)
     (hcapN : s.nodeBound < s.g.END) (hcapE : s.edgeBound < s.g.END) :
     ∃ w s', serStable s = some w ∧ deStable s.g.END s.g.directed order w = .ok s' ∧
@@ -123,7 +142,11 @@ theorem C17_roundtrip_stable (s : Stable) (hI : StableInv s) (order : List Field
   obtain ⟨w, s', h1, h2, D, O, h3, h4⟩ := roundtrip_stable_stable s hI order ho hcapN hcapE
   exact ⟨w, s', h1, h2, D.inv, D.hEND, D.hdir, O, O.nodeBound, O.edgeBound, h3, h4⟩
 
-/-- **round trip, `Graph`**: same indices, weights, endpoints, direction. -/
+/-- **round trip, `Graph`**: same indices, weights, endpoints, direction.  (A `Graph` has no vacancies and no free
+lists; what is not preserved is the order inside each adjacency list: `link_edges` rebuilds every list in descending
+edge-index order, which is also the order `add_edge` alone produces, but not necessarily the order left behind by a
+history with `remove_edge` / `remove_node`, whose `swap_remove` renumbers edges.  Observational identity is for the
+current order-independent observables `SameObs`.) -/
 theorem C17_roundtrip_graph (g : Raw) (hI : GraphInv g) (order : List Field)
     (ho : Field.n ∈ order ∧ Field.p ∈ order ∧ Field.e ∈ order)
     (hcapN : g.nodes.length < g.END) (hcapE : g.edges.length < g.END) :
@@ -132,7 +155,8 @@ theorem C17_roundtrip_graph (g : Raw) (hI : GraphInv g) (order : List Field)
   obtain ⟨g', h1, D, O⟩ := roundtrip_graph_graph g hI order ho hcapN hcapE
   exact ⟨g', h1, D.inv, D.hEND, D.hdir, O⟩
 
-/-- **cross-loading, any `Graph` stream as a `StableGraph`**, with the same indices. -/
+/-- **cross-loading, any `Graph` stream as a `StableGraph`**, with the same indices (order inside adjacency lists: see
+`C17_roundtrip_graph`; both free lists of the result are empty). -/
 theorem C17_crossload_graph_to_stable (g : Raw) (hI : GraphInv g) (order : List Field) (ho : FullOrder order)
     (hcapN : g.nodes.length < g.END) (hcapE : g.edges.length < g.END) :
     ∃ s', deStable g.END g.directed order (serGraph g) = .ok s' ∧
@@ -141,7 +165,8 @@ theorem C17_crossload_graph_to_stable (g : Raw) (hI : GraphInv g) (order : List 
   exact ⟨s', h1, D.inv, D.hEND, D.hdir, O⟩
 
 /-- **cross-loading, a vacancy-free `StableGraph` stream as a `Graph`**, with the same indices (vacancy-free = no
-vacant node below `node_bound`, no vacant edge below `edge_bound`; trailing vacancies do not count). -/
+vacant node below `node_bound`, no vacant edge below `edge_bound`; trailing vacancies do not count — they are on the
+original's free lists and are dropped, see the caveat at `C17_roundtrip_stable`). -/
 theorem C17_crossload_stable_to_graph (s : Stable) (hI : StableInv s) (order : List Field)
     (ho : Field.n ∈ order ∧ Field.p ∈ order ∧ Field.e ∈ order)
     (hvN : ∀ n, n ∈ s.g.nodes.take s.nodeBound → n.w.isSome = true)
@@ -426,6 +451,329 @@ example : (match deStable 255 true [.p, .e, .h, .n]
     { nodes := [1, 2, 3], holes := [1], prop := some true,
       edges := [some (0, 2, 5), none, some (2, 2, 6), some (0, 2, 7)] } with
     | .ok s => s.freeNode == 1 && s.freeEdge == 1 && s.nodeCount == 3 && s.edgeCount == 3 && s.g.nodes.length == 4
+    | _ => false) = true := by decide
+
+/-! ### wave 3: the loaded graph UNDER FURTHER USE — the bridge to C02, C01 and C03
+
+`StableInv` / `GraphInv` above are invariants local to `Model/Serde.lean`.  The "all histories" theorems of
+`StableGraph` (C02), `Graph` (C01) and `GraphMap` (C03) are proved about other models of the same data structures
+(`SG.State`, `G.State`, `GM.State`) and their invariants (`C02T.Inv`, `C01T.Inv` / `C01T.RInv`, `C03T.Inv`).  This section
+connects them.  `embedStable` / `embedGraph` copy the arrays, pointers, free-list heads and counts field by field into
+the C02 / C01 state (`unembedStable` / `unembedGraph` are the inverse copies); the invariants correspond in both
+directions; so every loaded graph is a C02 / C01 / C03 state satisfying that property's invariant, every further history
+of calls on it is covered by `C02_inv_step` / `C02_history_refines`, `C01_refines`, `C03_all_histories`' step theorems,
+and conversely every state those histories reach round-trips. -/
+
+/-- a serde-model `StableGraph` as a C02 state (`noLimit`: index type `usize`; `debug`: debug assertions compiled in):
+`fin := END`, `nodes`/`edges` copied slot by slot (`weight`, `next[0]`, `next[1]`, `node[0]`, `node[1]`), counts and
+free-list heads copied -/
+abbrev embedStable := SerdeProofs.embedStable
+/-- the inverse copy (forgets `noLimit` and `debug`) -/
+abbrev unembedStable := SerdeProofs.unembedStable
+/-- a serde-model `Graph` as a C01 state; the C01 model stores weights as `Nat`, they are translated by the bijection
+`SerdeProofs.encW` (zig-zag code of `Int`), which no C01 invariant or operation inspects -/
+abbrev embedGraph := SerdeProofs.embedGraph
+abbrev unembedGraph := SerdeProofs.unembedGraph
+/-- vacant edge slots carry `end()` in both endpoint fields — a clause of the C02 invariant that `StableInv` does not
+record -/
+abbrev VacEnd := SerdeProofs.VacEnd
+/-- the embedding `ofGM` of a C03 state composed with the order isomorphism `n ↦ n - c` of node values and weights
+(C03's values are `Nat`, the wire's are `i64`); `ofGMS 0 = ofGM` -/
+abbrev ofGMS := SerdeProofs.ofGMS
+
+/-- the two copies are mutually inverse. -/
+theorem C17_embed_stable_inverse (noLimit debug : Bool) (s : Stable) (t : SG.State) :
+    unembedStable (embedStable noLimit debug s) = s ∧ embedStable t.noLimit t.debug (unembedStable t) = t :=
+  ⟨SerdeProofs.unembed_embedStable noLimit debug s, SerdeProofs.embed_unembedStable t⟩
+
+/-- for `Graph` likewise (on graphs, i.e. all weights present). -/
+theorem C17_embed_graph_inverse (g : Raw) (hI : GraphInv g) (t : G.State) :
+    unembedGraph (embedGraph g) = g ∧ embedGraph (unembedGraph t) = t :=
+  ⟨SerdeProofs.unembed_embedGraph g hI, SerdeProofs.embed_unembedGraph t⟩
+
+/-- **bridge, `StableGraph`, serde ⇒ C02**: `StableInv` plus `VacEnd` is the C02 invariant of the embedded state, for
+every index width, in debug and release. -/
+theorem C17_bridge_stable (noLimit debug : Bool) (s : Stable) (hI : StableInv s) (hv : VacEnd s) :
+    C02T.Inv (embedStable noLimit debug s) :=
+  SerdeProofs.inv_embedStable noLimit debug s hI hv
+
+/-- the bridge as first asked for — `StableInv s → C02T.Inv (embedStable s)` — is false: `StableInv` says nothing about
+the endpoint fields of vacant edge slots, the C02 invariant fixes them to `end()`.  Witness: one vacant edge slot,
+correctly on the free list, with endpoint fields `0`.  (`C17_bridge_stable` is the repaired statement;
+`C17_de_inv_stable_c02` shows every LOADED graph has the extra clause.) -/
+theorem C17_bridge_stable_needs_vacEnd :
+    ∃ s : Stable, StableInv s ∧ ∀ noLimit debug, ¬ C02T.Inv (embedStable noLimit debug s) :=
+  ⟨SerdeProofs.badVac, SerdeProofs.badVac_inv, SerdeProofs.badVac_not_c02⟩
+
+/-- **bridge, `StableGraph`, C02 ⇒ serde**: a C02 state satisfying the C02 invariant (by `C02_all_histories`: every
+state reachable by a call history) is, copied into the serde model, a `StableGraph` satisfying `StableInv` (and
+`VacEnd`). -/
+theorem C17_bridge_stable_converse (t : SG.State) (hI : C02T.Inv t) :
+    StableInv (unembedStable t) ∧ VacEnd (unembedStable t) :=
+  SerdeProofs.stableInv_unembed t hI
+
+/-- **`de w = ok g → Inv g`, `StableGraph`, with the invariant of C02**: whatever is accepted, for EVERY wire value,
+satisfies the representation invariant for which C02 proves "all histories". -/
+theorem C17_de_inv_stable_c02 (END : Nat) (directed : Bool) (order : List Field) (w : Wire) (s : Stable)
+    (h : deStable END directed order w = .ok s) (noLimit debug : Bool) :
+    C02T.Inv (embedStable noLimit debug s) ∧ VacEnd s ∧
+      (embedStable noLimit debug s).fin = END ∧ (embedStable noLimit debug s).directed = directed :=
+  ⟨SerdeProofs.deStable_inv_c02 noLimit debug h, SerdeProofs.deStable_vacEnd h, (deStable_de h).hEND, (deStable_de h).hdir⟩
+
+/-- C02's "all histories", from ANY state satisfying the C02 invariant (not only from `new()`): no call of any history
+faults, the invariant holds at the end, and answers and final state are a run of the reference multigraph machine.
+(`C02_all_histories` is stated from `empty`; this is the same induction over `C02_inv_step`, combined with
+`C02_history_refines`, which already allows any start state.) -/
+theorem C17_c02_all_histories_from (t : SG.State) (hI : C02T.Inv t) (ops : List SG.Op) :
+    ∃ t' outs, SG.run t ops = .ok (t', outs) ∧ C02T.Inv t' ∧ outs.length = ops.length ∧
+      SGProofs.SpecRun t.fin (C02T.abs t) ops outs (C02T.abs t') := by
+  have hrun : ∀ (ops : List SG.Op) (s : SG.State), C02T.Inv s →
+      ∃ s' outs, SG.run s ops = .ok (s', outs) ∧ outs.length = ops.length := by
+    intro ops
+    induction ops with
+    | nil => intro s _; exact ⟨s, [], rfl, rfl⟩
+    | cons op ops ih =>
+      intro s hinv
+      obtain ⟨s1, o, h1, hinv1⟩ := C02T.C02_inv_step s op hinv
+      obtain ⟨s2, os, h2, hlen⟩ := ih s1 hinv1
+      exact ⟨s2, o :: os, by simp [SG.run, h1, h2], by simp [hlen]⟩
+  obtain ⟨t', outs, h1, h2⟩ := hrun ops t hI
+  obtain ⟨h3, h4⟩ := C02T.C02_history_refines ops t t' outs hI h1
+  exact ⟨t', outs, h1, h4, h2, h3⟩
+
+/-- **the loaded `StableGraph` under further use**: for every wire value that loads, every index width, debug and
+release, EVERY further history of C02 calls (`try_add_node`, `try_add_edge`, `try_update_edge`, `remove_node`,
+`remove_edge`, weight updates, `reverse`, `clear`, `clear_edges`, `retain_*`, `map`, `filter_map`, `extend_with_edges`,
+the round trip through `Graph`, `clone`; arbitrary arguments) on the loaded graph returns normally at every call (no
+out-of-bounds index, no non-terminating list walk, no failing `debug_assert!` / `check_free_lists`, no counter
+underflow), keeps the C02 invariant, and its answers and final state are a run of the reference multigraph machine
+started from the multigraph the loaded graph denotes. -/
+theorem C17_loaded_stable_all_histories (END : Nat) (directed : Bool) (order : List Field) (w : Wire) (s : Stable)
+    (h : deStable END directed order w = .ok s) (noLimit debug : Bool) (ops : List SG.Op) :
+    ∃ t outs, SG.run (embedStable noLimit debug s) ops = .ok (t, outs) ∧ C02T.Inv t ∧ outs.length = ops.length ∧
+      SGProofs.SpecRun END (C02T.abs (embedStable noLimit debug s)) ops outs (C02T.abs t) := by
+  obtain ⟨t, outs, h1, h2, h3, h4⟩ :=
+    C17_c02_all_histories_from (embedStable noLimit debug s) (SerdeProofs.deStable_inv_c02 noLimit debug h) ops
+  have hfin : (embedStable noLimit debug s).fin = END := (deStable_de h).hEND
+  rw [hfin] at h4
+  exact ⟨t, outs, h1, h2, h3, h4⟩
+
+/-- identical order-independent observables (`SameObs`) of two serde-model `StableGraph`s = their embeddings denote
+the same reference multigraph of C02 (the same partial maps index ↦ node weight, index ↦ (source, target, weight)). -/
+theorem C17_sameObs_is_c02_equiv (nl dbg nl' dbg' : Bool) (s s' : Stable) (hd : s'.g.directed = s.g.directed)
+    (O : SameObs s.g s'.g) :
+    (C02T.abs (embedStable nl' dbg' s')).equiv (C02T.abs (embedStable nl dbg s)) :=
+  SerdeProofs.sameObs_equiv nl dbg nl' dbg' s s' hd O
+
+/-- **round trip, `StableGraph`, for every C02 state satisfying the C02 invariant**: below the capacity of the index
+type (D20) and for every field order, the state serializes and its stream is loaded as a graph that satisfies the C02
+invariant again (so `C17_c02_all_histories_from` applies to it) and denotes the SAME reference multigraph — every live
+node and edge index with its weight and endpoints — with the same bounds and counts.  Free-list order is not preserved
+(see `C17_roundtrip_stable`): C02's reference machine lets `add_node` / `add_edge` return any vacant index. -/
+theorem C17_roundtrip_stable_c02 (t : SG.State) (hI : C02T.Inv t) (order : List Field) (ho : FullOrder order)
+    (hcapN : SG.nodeBound t < t.fin) (hcapE : SG.edgeBound t < t.fin) (noLimit debug : Bool) :
+    ∃ w s', serStable (unembedStable t) = some w ∧ deStable t.fin t.directed order w = .ok s' ∧
+      StableInv s' ∧ C02T.Inv (embedStable noLimit debug s') ∧
+      (C02T.abs (embedStable noLimit debug s')).equiv (C02T.abs t) ∧
+      SG.nodeBound (embedStable noLimit debug s') = SG.nodeBound t ∧
+      SG.edgeBound (embedStable noLimit debug s') = SG.edgeBound t ∧
+      (embedStable noLimit debug s').nodeCount = t.nodeCount ∧ (embedStable noLimit debug s').edgeCount = t.edgeCount := by
+  obtain ⟨hS, _⟩ := SerdeProofs.stableInv_unembed t hI
+  obtain ⟨w, s', h1, h2, D, O, h3, h4⟩ := roundtrip_stable_stable (unembedStable t) hS order ho
+    (by rw [SerdeProofs.nodeBound_unembed]; exact hcapN) (by rw [SerdeProofs.edgeBound_unembed]; exact hcapE)
+  have hequiv := SerdeProofs.sameObs_equiv t.noLimit t.debug noLimit debug (unembedStable t) s' D.hdir O
+  rw [SerdeProofs.embed_unembedStable] at hequiv
+  refine ⟨w, s', h1, h2, D.inv, SerdeProofs.deStable_inv_c02 noLimit debug h2, hequiv, ?_, ?_, h3, h4⟩
+  · rw [SerdeProofs.nodeBound_embed, ← SerdeProofs.nodeBound_unembed]; exact O.nodeBound
+  · rw [SerdeProofs.edgeBound_embed, ← SerdeProofs.edgeBound_unembed]; exact O.edgeBound
+
+/-- **round trip, `StableGraph`, for every history**: after ANY sequence of C02 calls on a fresh `StableGraph` (which
+never faults: `C02_all_histories`), the state reached — whatever vacancies, free-list orders and trailing vacant slots
+its history left — round-trips through serde as in `C17_roundtrip_stable_c02`, in every field order, provided it is
+below the capacity of its index type (D20). -/
+theorem C17_roundtrip_stable_all_histories (directed : Bool) (fin : Nat) (noLimit debug : Bool) (ops : List SG.Op)
+    (order : List Field) (ho : FullOrder order) :
+    ∃ t outs, SG.run (SG.empty directed fin noLimit debug) ops = .ok (t, outs) ∧ t.fin = fin ∧
+      (SG.nodeBound t < t.fin → SG.edgeBound t < t.fin →
+        ∃ w s', serStable (unembedStable t) = some w ∧ deStable t.fin t.directed order w = .ok s' ∧
+          StableInv s' ∧ C02T.Inv (embedStable noLimit debug s') ∧
+          (C02T.abs (embedStable noLimit debug s')).equiv (C02T.abs t) ∧
+          SG.nodeBound (embedStable noLimit debug s') = SG.nodeBound t ∧
+          SG.edgeBound (embedStable noLimit debug s') = SG.edgeBound t ∧
+          (embedStable noLimit debug s').nodeCount = t.nodeCount ∧
+          (embedStable noLimit debug s').edgeCount = t.edgeCount) := by
+  obtain ⟨t, outs, h1, hI, _⟩ := C02T.C02_all_histories directed fin noLimit debug ops
+  exact ⟨t, outs, h1, SerdeProofs.run_fin ops (C02T.C02_inv_init directed fin noLimit debug) h1,
+    fun hcapN hcapE => C17_roundtrip_stable_c02 t hI order ho hcapN hcapE noLimit debug⟩
+
+/-- the free-list caveat is real: a `StableGraph` with two node vacancies (`add_node` ×3, `remove_node(1)`,
+`remove_node(0)`) hands out index `0` next; its round trip — same live nodes, same bounds and counts — hands out index
+`1`. -/
+theorem C17_roundtrip_free_list_order_witness :
+    let s : Stable :=
+      { g := { END := 255, directed := true,
+               nodes := [⟨none, 1, 255⟩, ⟨none, 255, 0⟩, ⟨some 12, 255, 255⟩], edges := [] },
+        nodeCount := 1, edgeCount := 0, freeNode := 0, freeEdge := 255 }
+    s.checkFreeLists = .ok () ∧
+    (match s.tryAddNode 7 with | .ok (_, .ok i) => i | _ => 99) = 0 ∧
+    (match (serStable s).map (deStable 255 true [.n, .h, .p, .e]) with
+      | some (.ok s') => (match s'.tryAddNode 7 with | .ok (_, .ok i) => i | _ => 99)
+      | _ => 99) = 1 := by
+  decide
+
+/-! #### `Graph` / C01 -/
+
+/-- **bridge, `Graph`, serde ⇒ C01**: `GraphInv` is the C01 representation invariant of the embedded state. -/
+theorem C17_bridge_graph (g : Raw) (hI : GraphInv g) : C01T.Inv (embedGraph g) :=
+  SerdeProofs.inv_embedGraph g hI
+
+/-- **bridge, `Graph`, C01 ⇒ serde**: a C01 state satisfying the C01 invariant (by `C01_inv_all_histories`: every state
+reachable by a call history) is, copied into the serde model, a `Graph` satisfying `GraphInv`. -/
+theorem C17_bridge_graph_converse (t : G.State) (hI : C01T.Inv t) : GraphInv (unembedGraph t) :=
+  SerdeProofs.graphInv_unembed t hI
+
+/-- C01's refinement invariant `RInv` (there is a stamp function decreasing along every stored link — what makes
+"most recently added first" meaningful) does NOT follow from `GraphInv` alone: two parallel edges listed in opposite
+orders at their two endpoints satisfy `GraphInv` and have no such stamps.  No call history and no `link_edges` produces
+such a state; for LOADED graphs `C17_de_inv_graph_c01` proves `RInv` from the descending order `link_edges` builds. -/
+theorem C17_bridge_graph_rinv_needs_order :
+    ∃ g : Raw, GraphInv g ∧ ∀ st ck, ¬ C01T.RInv (embedGraph g) st ck :=
+  ⟨SerdeProofs.crossed, SerdeProofs.crossed_inv, SerdeProofs.crossed_no_rinv⟩
+
+/-- **`de w = ok g → Inv g`, `Graph`, with the invariants of C01**: whatever is accepted, for EVERY wire value,
+satisfies the C01 representation invariant, has all its lists in descending index order (`Inv1`, the state of a graph
+built by additions only) and hence the refinement invariant `RInv` with "stamp = index". -/
+theorem C17_de_inv_graph_c01 (END : Nat) (directed : Bool) (order : List Field) (w : Wire) (g : Raw)
+    (h : deGraph END directed order w = .ok g) :
+    C01T.Inv (embedGraph g) ∧ C01T.Inv1 (embedGraph g) ∧ C01T.RInv (embedGraph g) id (embedGraph g).edges.length ∧
+      (embedGraph g).endv = END ∧ (embedGraph g).directed = directed :=
+  ⟨(SerdeProofs.deGraph_inv1 h).1, SerdeProofs.deGraph_inv1 h, SerdeProofs.deGraph_rinv h,
+   (deGraph_de h).hEND, (deGraph_de h).hdir⟩
+
+/-- **the loaded `Graph` under further use**: for every wire value that loads, EVERY further history of C01 calls on
+the loaded graph (adds, `update_edge`, weight mutation, `remove_node`, `remove_edge`, `retain_*`, `reverse`, `clear*`,
+`map`, `filter_map`, conversions, walkers, all queries; arbitrary arguments) keeps the C01 invariants, never answers with
+a fault (out-of-bounds index, non-terminating walk, failing `debug_assert!`), and the whole sequence of answers is a run
+of the plain-multigraph specification started from the multigraph the loaded graph denotes. -/
+theorem C17_loaded_graph_all_histories (END : Nat) (directed : Bool) (order : List Field) (w : Wire) (g : Raw)
+    (h : deGraph END directed order w = .ok g) (ops : List G.Op) :
+    C01T.Inv (G.run (embedGraph g) ops).1 ∧
+    (∃ st ck, C01T.RInv (G.run (embedGraph g) ops).1 st ck ∧
+      C01T.SpecRun2 (C01T.abs (embedGraph g)) ops (G.run (embedGraph g) ops).2
+        (C01T.absG (G.run (embedGraph g) ops).1 st ck)) ∧
+    (∀ o, o ∈ (G.run (embedGraph g) ops).2 → ∀ f, o ≠ .fault f) := by
+  obtain ⟨st, ck, hrun, hr⟩ := GProofs.refines_run2 ops (embedGraph g) id _ (SerdeProofs.deGraph_rinv h)
+  exact ⟨hr.inv, ⟨st, ck, hr, hrun⟩, SerdeProofs.specRun2_no_fault hrun⟩
+
+/-- **round trip, `Graph`, for every C01 state satisfying the C01 invariant**: below the capacity of the index type
+(D20) and for every field order, the state serializes and its stream is loaded as a graph with the same index type and
+edge type, the same node weights at the same indices and the same `(source, target, weight)` at every edge index, which
+satisfies the C01 invariants again (so `C01_refines` / `C01_no_fault` apply to it under every further history).
+Adjacency-list order is not preserved (see `C17_roundtrip_graph`). -/
+theorem C17_roundtrip_graph_c01 (t : G.State) (hI : C01T.Inv t) (order : List Field)
+    (ho : Field.n ∈ order ∧ Field.p ∈ order ∧ Field.e ∈ order)
+    (hcapN : t.nodes.length < t.endv) (hcapE : t.edges.length < t.endv) :
+    ∃ g', deGraph t.endv t.directed order (serGraph (unembedGraph t)) = .ok g' ∧ GraphInv g' ∧
+      (embedGraph g').endv = t.endv ∧ (embedGraph g').directed = t.directed ∧
+      (embedGraph g').nodes.map (·.weight) = t.nodes.map (·.weight) ∧
+      (embedGraph g').edges.map C01T.edgeEnds = t.edges.map C01T.edgeEnds ∧
+      C01T.RInv (embedGraph g') id (embedGraph g').edges.length := by
+  have hG := SerdeProofs.graphInv_unembed t hI
+  obtain ⟨g', h1, D, O⟩ := roundtrip_graph_graph (unembedGraph t) hG order ho
+    (by simpa [SerdeProofs.unembedGraph] using hcapN) (by simpa [SerdeProofs.unembedGraph] using hcapE)
+  obtain ⟨h2, h3⟩ := SerdeProofs.sameObs_c01 (unembedGraph t) g' hG D.inv O
+  rw [SerdeProofs.embed_unembedGraph] at h2 h3
+  exact ⟨g', h1, D.inv, D.hEND, D.hdir, h2, h3, SerdeProofs.deGraph_rinv h1⟩
+
+/-- **round trip, `Graph`, for every history**: after ANY sequence of C01 calls on a fresh `Graph`, the state reached —
+whatever `swap_remove` renumberings and list orders its history left — round-trips through serde as in
+`C17_roundtrip_graph_c01`, in every field order, provided it is below the capacity of its index type (D20). -/
+theorem C17_roundtrip_graph_all_histories (endv : Nat) (directed : Bool) (ops : List G.Op) (order : List Field)
+    (ho : Field.n ∈ order ∧ Field.p ∈ order ∧ Field.e ∈ order) :
+    let t := (G.run (G.empty endv directed) ops).1
+    t.nodes.length < t.endv → t.edges.length < t.endv →
+    ∃ g', deGraph t.endv t.directed order (serGraph (unembedGraph t)) = .ok g' ∧ GraphInv g' ∧
+      (embedGraph g').endv = t.endv ∧ (embedGraph g').directed = t.directed ∧
+      (embedGraph g').nodes.map (·.weight) = t.nodes.map (·.weight) ∧
+      (embedGraph g').edges.map C01T.edgeEnds = t.edges.map C01T.edgeEnds ∧
+      C01T.RInv (embedGraph g') id (embedGraph g').edges.length := by
+  intro t hcapN hcapE
+  exact C17_roundtrip_graph_c01 t (C01T.C01_inv_all_histories endv directed ops) order ho hcapN hcapE
+
+/-! #### `GraphMap` / C03 -/
+
+/-- the never-corrupt statement for `GraphMap` as first asked for: whatever `de` accepts is the embedding `ofGM` of a
+C03 state satisfying the C03 invariant.  False as written, for a reason that has nothing to do with the code: C03's
+model has node values in `Nat`, the wire carries `i64`. -/
+def C17_de_map_inv_statement : Prop :=
+  ∀ (directed : Bool) (order : List Field) (w : Wire) (m : GMap), deMap directed order w = .ok m →
+    ∃ s, m = ofGM s ∧ C03T.Inv s
+
+/-- witness: the one-node map with node value `-1` loads, and is no `ofGM s`. -/
+theorem C17_de_map_inv_statement_false_witness : ¬ C17_de_map_inv_statement := by
+  intro h
+  have e : deMap true [.n, .h, .p, .e] { nodes := [-1], holes := [], prop := some true, edges := [] } =
+      .ok ⟨true, [(-1, [])], []⟩ := by decide
+  obtain ⟨s, hs, _⟩ := h _ _ _ _ e
+  have := congrArg GMap.nodes hs
+  simp only [SerdeProofs.ofGM] at this
+  cases hn : s.nodes with
+  | nil => rw [hn] at this; simp at this
+  | cons p t =>
+    rw [hn] at this
+    simp only [List.map_cons, List.cons.injEq, SerdeProofs.ofNode, Prod.mk.injEq] at this
+    omega
+
+theorem C17_ofGMS_zero (s : GM.State) : ofGMS 0 s = ofGM s := SerdeProofs.ofGMS_zero s
+
+/-- **`de w = ok m → Inv m`, `GraphMap`** (the repaired statement), for EVERY wire value, every field order, both edge
+types: whatever is accepted is — up to the order-preserving renaming `n ↦ n - c` of node values and weights, for a
+suitable `c` — a C03 `GraphMap` state satisfying the C03 invariant (duplicate-free node keys and edge keys, canonical
+edge keys, edges join present nodes, adjacency vectors mirror the edge map).  `from_graph` is a fold of `add_node` /
+`add_edge` from the empty map; both commute with the embedding and C03 (`C03_inv_step`) proves they keep the invariant. -/
+theorem C17_de_map_inv (directed : Bool) (order : List Field) (w : Wire) (m : GMap)
+    (h : deMap directed order w = .ok m) : ∃ c s, m = ofGMS c s ∧ C03T.Inv s := by
+  obtain ⟨c, s, h1, h2⟩ := SerdeProofs.deMap_isGM h
+  exact ⟨c, s, h1, h2⟩
+
+/-- the statement as first asked for, with the one hypothesis it needs: for a stream without negative node values and
+weights no renaming is needed (`c = 0`). -/
+theorem C17_de_map_inv_nonneg (directed : Bool) (order : List Field) (w : Wire) (m : GMap)
+    (h : deMap directed order w = .ok m) (hn : ∀ x, x ∈ w.nodes → 0 ≤ x)
+    (he : ∀ a b x, some (a, b, x) ∈ w.edges → 0 ≤ x) : ∃ s, m = ofGM s ∧ C03T.Inv s :=
+  SerdeProofs.deMap_isGM_nonneg h hn he
+
+/-- **the loaded `GraphMap` under further use**: every further history of C03 calls on (the C03 state of) a loaded map
+keeps the C03 invariant, denotes the abstract simple graph the specification machine reaches, and every answer is the
+prescribed one (`C03_all_histories`, from the loaded state instead of `new()`). -/
+theorem C17_loaded_map_all_histories (directed : Bool) (order : List Field) (w : Wire) (m : GMap)
+    (h : deMap directed order w = .ok m) :
+    ∃ c s, m = ofGMS c s ∧ ∀ ops : List GM.Op,
+      C03T.Inv (GM.run s ops).1 ∧ C03T.abs (GM.run s ops).1 = SimpleGraphSpec.specRun (C03T.abs s) ops ∧
+      C03T.OutsOk (C03T.abs s) ops (GM.run s ops).2 := by
+  obtain ⟨c, s, h1, h2⟩ := SerdeProofs.deMap_isGM h
+  exact ⟨c, s, h1, fun ops => GMProofs.run_spec s ops h2⟩
+
+/-- every loaded `GraphMap` has the well-formedness `C17_roundtrip_map` asks of its argument (duplicate-free node keys,
+duplicate-free canonical edge keys, edges join present nodes): a loaded map round-trips again. -/
+theorem C17_loaded_map_wf (directed : Bool) (order : List Field) (w : Wire) (m : GMap)
+    (h : deMap directed order w = .ok m) :
+    (m.nodes.map (·.1)).Nodup ∧ (m.edges.map (·.1)).Nodup ∧
+    (∀ a b x, ((a, b), x) ∈ m.edges →
+      (m.nodes.map (·.1)).contains a ∧ (m.nodes.map (·.1)).contains b ∧ (m.directed = true ∨ a ≤ b)) := by
+  obtain ⟨c, s, rfl, hI⟩ := SerdeProofs.deMap_isGM h
+  obtain ⟨h1, h2, h3⟩ := SerdeProofs.ofGMS_wf c s hI
+  exact ⟨h1, h2, fun a b x hx => by simpa using h3 a b x hx⟩
+
+/-- non-vacuity of the bridge: a stream with a node vacancy, an edge vacancy, a self loop and parallel edges loads, and
+a further history with removals, re-use of both vacancies and `retain_nodes` runs on the embedded state without fault. -/
+example : (match deStable 255 true [.p, .e, .h, .n]
+    { nodes := [1, 2, 3], holes := [1], prop := some true,
+      edges := [some (0, 2, 5), none, some (2, 2, 6), some (0, 2, 7)] } with
+    | .ok s => (match SG.run (SerdeProofs.embedStable false true s)
+                  [.addNode 9, .addEdge 1 0 4, .removeNode 2, .addEdge 0 1 8, .retainNodes [0], .addNode 5] with
+                | .ok (t, _) => t.nodeCount == 3 && t.edgeCount == 0 && SG.nodeIndices t == [0, 1, 3]
+                | .error _ => false)
     | _ => false) = true := by decide
 
 end PetgraphModel.C17T
